@@ -203,6 +203,15 @@ rep0_ctx_send(void *arg, nni_aio *aio)
 		return;
 	}
 
+	if (ctx->saio != NULL) {
+		// An earlier reply of this context is still waiting for its
+		// pipe (the application received the next request meanwhile):
+		// this one supersedes it.
+		nni_aio *old = ctx->saio;
+		ctx->saio    = NULL;
+		nni_list_remove(&ctx->spipe->sendq, ctx);
+		nni_aio_finish_error(old, NNG_ECANCELED);
+	}
 	ctx->saio  = aio;
 	ctx->spipe = p;
 	nni_list_append(&p->sendq, ctx);
